@@ -8,6 +8,8 @@ cannot represent tables whose transitions are closer together than the offset ju
 the C accelerator has been seen to crash on extended /time values such as `/-100`.
 Files whose footer uses the zero-based `n` day form are skipped: CPython (3.11) evaluates `n` like `Jn`
 (one day early) — a CPython deviation from POSIX, the in-crate astrolabe tests and tzif_ref agree with POSIX.
+Files whose footer uses exactly `J59` are skipped too: CPython moves Jn for n >= 59 in leap years, so J59
+becomes 29 February there; POSIX: "February 28 is day 59 and March 1 is day 60".
 
 exit 0: all agree (prints a JSON summary) / 1: disagreements / 2: zoneinfo not usable here."""
 import collections, json, re, sys
@@ -18,6 +20,8 @@ except Exception as e:  # pragma: no cover
     print(json.dumps({"status": "unavailable", "why": str(e)})); sys.exit(2)
 
 N_RULE = re.compile(r",(\d+)(/[-+0-9:]+)?(,|$)")
+# CPython shifts Jn for n >= 59 in leap years; POSIX says J59 is always 28 February (only J60.. move)
+J59_RULE = re.compile(r",J59(/[-+0-9:]+)?(,|$)")
 
 def footer_of(data):
     if data[4:5] == b"\0":
@@ -32,7 +36,7 @@ def main(path):
             p, ts, off = line.rstrip("\n").split("\t")
             by_file.setdefault(p, []).append((int(ts), int(off)))
     epoch = datetime(1970, 1, 1)
-    files = lookups = not_loaded = n_rule_skipped = 0
+    files = lookups = not_loaded = n_rule_skipped = j59_skipped = 0
     bad = []
     for p, rows in by_file.items():
         try:
@@ -40,6 +44,9 @@ def main(path):
                 data = fh.read()
             if N_RULE.search(footer_of(data)):
                 n_rule_skipped += 1
+                continue
+            if J59_RULE.search(footer_of(data)):
+                j59_skipped += 1
                 continue
             with open(p, "rb") as fh:
                 zi = zoneinfo.ZoneInfo.from_file(fh)
@@ -58,7 +65,7 @@ def main(path):
             if got != off and len(bad) < 20:
                 bad.append({"file": p, "ts": ts, "tzif_ref": off, "cpython": got})
     print(json.dumps({"status": "ok" if not bad else "disagree", "files": files, "files_cpython_could_not_load": not_loaded,
-                      "files_skipped_zero_based_day_rule": n_rule_skipped, "lookups": lookups, "disagreements": bad}))
+                      "files_skipped_zero_based_day_rule": n_rule_skipped, "files_skipped_J59_rule": j59_skipped, "lookups": lookups, "disagreements": bad}))
     sys.exit(1 if bad else 0)
 
 if __name__ == "__main__":
